@@ -303,6 +303,17 @@ func selfSigned() (certPEM, keyPEM string, cert gotls.Certificate, err error) {
 	return
 }
 
+// boundListener binds a loopback port NOW and returns it for v2.Listener.InheritListener, so that nobody else can take
+// the port between choosing it and MOSN's listener start (many checks run on this machine at the same time).
+func boundListener() (net.Listener, *net.TCPAddr, string) {
+	l, err := net.Listen("tcp", "127.0.0.1:0")
+	if err != nil {
+		panic(err)
+	}
+	ta := l.Addr().(*net.TCPAddr)
+	return l, ta, ta.String()
+}
+
 func freeAddr() string {
 	l, err := net.Listen("tcp", "127.0.0.1:0")
 	if err != nil {
@@ -347,6 +358,9 @@ func initEnv() (*env, error) {
 		if r != nil {
 			cc.AddConnectionEventListener(&sideListener{side: "U", rec: r})
 		}
+		if h := getAcctHooks(); h != nil {
+			h.onCreate(cc)
+		}
 		return cc
 	})
 	e.cm = cluster.NewClusterManagerSingleton(nil, nil, nil)
@@ -360,19 +374,18 @@ func initEnv() (*env, error) {
 		return nil, err
 	}
 	if err := e.cm.AddOrUpdateClusterAndHost(v2.Cluster{Name: clusterDead, ClusterType: v2.SIMPLE_CLUSTER, LbType: v2.LB_RANDOM, ConnBufferLimitBytes: 32768},
-		[]v2.Host{{HostConfig: v2.HostConfig{Address: freeAddr()}}}); err != nil {
+		[]v2.Host{{HostConfig: v2.HostConfig{Address: "127.0.0.1:1"}}}); err != nil {
 		return nil, err
 	}
 	// real listeners
 	e.handler = server.NewHandler(noopCMF{}, e.cm)
 	mk := func(name, clusterName string, tls *v2.TLSConfig) (string, error) {
-		addr := freeAddr()
-		ta, _ := net.ResolveTCPAddr("tcp", addr)
+		il, ta, addr := boundListener()
 		fc := v2.FilterChain{FilterChainConfig: v2.FilterChainConfig{Filters: []v2.Filter{{Type: v2.TCP_PROXY, Config: map[string]interface{}{"cluster": clusterName}}}}}
 		if tls != nil {
 			fc.TLSContexts = []v2.TLSConfig{*tls}
 		}
-		lc := &v2.Listener{ListenerConfig: v2.ListenerConfig{Name: name, AddrConfig: addr, BindToPort: true, Network: "tcp", FilterChains: []v2.FilterChain{fc}}, Addr: ta}
+		lc := &v2.Listener{ListenerConfig: v2.ListenerConfig{Name: name, AddrConfig: addr, BindToPort: true, Network: "tcp", FilterChains: []v2.FilterChain{fc}}, Addr: ta, InheritListener: il}
 		if _, err := e.handler.AddOrUpdateListener(lc); err != nil {
 			return "", err
 		}
